@@ -386,7 +386,80 @@ func checkC10(r *Result) {
 		}
 		r.check(n == 1, "SWITCH-LOCK", "(x/reporter/keeper.msgServer).RemoveSelector # one removal site", P.Pos(rs.Pos()), fmt.Sprint(n))
 	}
+	checkHasMin(r, "JOIN-GUARDS")
 	r.minCount("JOIN-GUARDS", 5)
 	r.minCount("SWITCH-LOCK", 4)
 	r.minCount("STAKE-COUNT", 6)
+}
+
+// checkHasMin: HasMin decides "the account's bonded delegations add up to at least the minimum". Structural part:
+// one accumulator captured by the iteration callback; every update combines the accumulator's own previous value
+// with the visited delegation's tokens (TokensFromShares of a validator read in that visit), only under IsBonded.
+func checkHasMin(r *Result, rule string) {
+	P := r.P
+	hm := P.Func("(x/reporter/keeper.Keeper).HasMin")
+	if hm == nil {
+		r.broken("anchor HasMin does not resolve")
+		return
+	}
+	r.fn(FuncName(hm))
+	var cb *ssa.Function
+	for _, cs := range P.CallSitesIn(hm) {
+		if strings.HasSuffix(cs.Callee, "StakingKeeper.IterateDelegatorDelegations") {
+			if mc, ok := Arg(cs.Instr, 2).(*ssa.MakeClosure); ok {
+				cb, _ = mc.Fn.(*ssa.Function)
+			}
+		}
+	}
+	if cb == nil {
+		r.bad(rule, "(x/reporter/keeper.Keeper).HasMin # visits the account's delegations with a literal callback", P.Pos(hm.Pos()), "no IterateDelegatorDelegations call with a closure literal")
+		return
+	}
+	ps := AnalyzePaths(cb, []Atom{{Name: "bonded", Cond: func(rel *Term) (bool, bool) {
+		return strings.HasSuffix(rel.Op, "Validator).IsBonded"), true
+	}}})
+	tm := NewTermer()
+	n := 0
+	for _, b := range cb.Blocks {
+		for _, in := range b.Instrs {
+			st, ok := in.(*ssa.Store)
+			if !ok {
+				continue
+			}
+			fv, ok := st.Addr.(*ssa.FreeVar)
+			if !ok || !strings.Contains(fv.Type().String(), "math.Int") {
+				continue
+			}
+			n++
+			call, _ := st.Val.(*ssa.Call)
+			okShape, why := false, "the stored value is not accumulator.Add/Sub(delegation tokens)"
+			if call != nil {
+				name := CalleeName(call.Common())
+				if (name == "(cosmossdk.io/math.Int).Add" || name == "(cosmossdk.io/math.Int).Sub") && len(call.Call.Args) == 2 {
+					ld, isLoad := call.Call.Args[0].(*ssa.UnOp)
+					own := isLoad && ld.X == ssa.Value(fv)
+					amt := tm.Of(call.Call.Args[1])
+					fromVisit := amt.Contains("Validator).TokensFromShares") && amt.Contains("Delegation.Shares") && amt.Contains("StakingKeeper.GetValidator")
+					okShape = own && fromVisit
+					why = fmt.Sprintf("combines the accumulator's own previous value: %v ; with the visited delegation's tokens: %v", own, fromVisit)
+				}
+			}
+			bad := ps.Require(st, func(v map[string]bool) bool { return v["bonded"] })
+			r.check(okShape && len(bad) == 0, rule, "(x/reporter/keeper.Keeper).HasMin # each bonded delegation is added to the running amount", P.Pos(st.Pos()), why+fmt.Sprintf(" ; under IsBonded: %v", len(bad) == 0))
+		}
+	}
+	r.check(n == 1, rule, "(x/reporter/keeper.Keeper).HasMin # one accumulator update in the callback", P.Pos(cb.Pos()), fmt.Sprint(n))
+	// the verdict compares the accumulator with the minimum handed in
+	okRet, nRet := true, 0
+	for _, ret := range SuccessReturns(hm) {
+		v := tm.Of(ResultOf(ret, 0))
+		if v.Op == "const:false" {
+			continue
+		}
+		nRet++
+		if !(v.Contains("param:3:cosmossdk.io/math.Int") || v.Contains("local:")) {
+			okRet = false
+		}
+	}
+	r.check(okRet && nRet >= 1, rule, "(x/reporter/keeper.Keeper).HasMin # the verdict is taken from the running amount and the minimum", P.Pos(hm.Pos()), fmt.Sprintf("%d verdict returns", nRet))
 }
